@@ -398,8 +398,46 @@ fn c19(tier: &str, seed: u64) -> GridCheck {
     c
 }
 
+fn c17(tier: &str, seed: u64) -> GridCheck {
+    let mut c = base_check("C17", "C17", "exploration");
+    // wide and long programs with block captures on most operand positions: any two capture /
+    // result / thread-builder names that collide make a branch use another branch's closure or value
+    let mut cfg = GenCfg::base(KINDS8.to_vec());
+    cfg.n = (9, 24);
+    cfg.depth = (1, 3);
+    cfg.cell = (4, 24);
+    cfg.wrappers = 0.1;
+    cfg.caps = 0.7;
+    cfg.names = 0.1;
+    cfg.snaps = 0.2;
+    cfg.handler = 0.3;
+    cfg.equal_depths = 0.3;
+    let count = if tier == "quick" { 48 } else { 480 };
+    const SYNC4: [&str; 4] = ["join", "try_join", "join_spawn", "try_join_spawn"];
+    const ASYNC4: [&str; 4] = ["join_async", "try_join_async", "join_async_spawn", "try_join_async_spawn"];
+    // sync and thread-spawning macros: the full index range (cheap to compile)
+    let mut progs = sample(seed, 0x1700, count, &cfg, &|i| Some(SYNC4[i % 4]));
+    // plus mid-sized ones (index pairs like 1|11 vs 11|1 need >= 12 branches / actions only on one side)
+    let mut cfg2 = cfg.clone();
+    cfg2.n = (2, 13);
+    cfg2.cell = (8, 24);
+    progs.extend(sample(seed, 0x1701, count, &cfg2, &|i| Some(SYNC4[i % 4])));
+    // async macros: the same name constructors are used; smaller programs (they compile slowly)
+    let mut cfg3 = cfg.clone();
+    cfg3.n = (9, 13);
+    cfg3.depth = (1, 2);
+    cfg3.cell = (2, 12);
+    progs.extend(sample(seed, 0x1702, count / 2, &cfg3, &|i| Some(ASYNC4[i % 4])));
+    c.progs = progs;
+    c.budget = if tier == "quick" { 6 } else { 16 };
+    c.batch_size = 128;
+    c.rule = "index stage: grid programs with 9-24 branches x up to 24 actions per step (and 2-13 branches x 8-24 actions) under the eight macro kinds, block captures on 70 % of the operand positions (every capture returns a callback with its own id), thread-spawning macros with >= 11 branches; oracle: the macro's value and every branch's callback sequence equal the model's - a clash between any two generated names (captures, per-branch results, step results, thread builders) makes a branch use another position's closure or value. Non-trivial = >= 2 branches".to_string();
+    c
+}
+
 pub fn build(id: &str, tier: &str, seed: u64) -> Option<GridCheck> {
     Some(match id {
+        "C17" => c17(tier, seed),
         "C19" => c19(tier, seed),
         "C07" => c07(tier, seed),
         "C18" => c18(tier, seed),
